@@ -181,7 +181,7 @@ pub fn iterstates(a: &Args, rep: &mut Report) {
         let size = if cfg!(miri) { *hr.pick(&[3usize, 14]) } else { *hr.pick(&[0usize, 1, 5, 14, 15, 20, 29, 40, 61, 100]) };
         let state = hr.below(7);
         let elem = *hr.pick(&[ElemKind::TrInline, ElemKind::TrHeap, ElemKind::U64]);
-        let cfg = Cfg { elem, bh: Bh::new(*hr.pick(&[HMode::Good, HMode::Identity, HMode::SameTag]), hr.below(3)), cap: usize::MAX, check_every: 1, cursor_every: 1, focus };
+        let cfg = Cfg { elem, bh: Bh::new(*hr.pick(&[HMode::Good, HMode::Identity, HMode::SameTag]), hr.below(3)), cap: usize::MAX, check_every: 1, cursor_every: 1, focus, ledger_only: false };
         // the length the state will have is not known before building: use generous prefixes
         let mut ops: Vec<Op> = vec![Op::new(Code::Keys), Op::new(Code::Values), Op::new(Code::IterMut).with_v(3), Op::new(Code::ValuesMut).with_v(2)];
         let lim = (size as u64 + 12).min(160);
@@ -285,7 +285,7 @@ pub fn limits(a: &Args, rep: &mut Report) {
         let size = *hr.pick(&[0usize, 1, 3, 7, 9, 14, 15, 20, 28, 29, 40, 57, 100]);
         let state = hr.below(7);
         let elem = *hr.pick(&[ElemKind::U64, ElemKind::U64, ElemKind::TrInline]);
-        let cfg = Cfg { elem, bh: Bh::new(*hr.pick(&[HMode::Good, HMode::Identity]), hr.below(3)), cap: usize::MAX, check_every: 16, cursor_every: 4, focus };
+        let cfg = Cfg { elem, bh: Bh::new(*hr.pick(&[HMode::Good, HMode::Identity]), hr.below(3)), cap: usize::MAX, check_every: 16, cursor_every: 4, focus, ledger_only: false };
         if let Some(f) = &mut tfile {
             use std::io::Write as _;
             let _ = writeln!(f, "## history {} {} state={} size={}", h, cfg.describe(), state, size);
@@ -536,7 +536,7 @@ pub fn clones(a: &Args, rep: &mut Report) {
     for h in 0..sh.n {
         let mut hr = rng.fork();
         let elem = *hr.pick(&[ElemKind::TrInline, ElemKind::TrHeap, ElemKind::U64]);
-        let cfg = Cfg { elem, bh: Bh::new(*hr.pick(&[HMode::Good, HMode::Identity, HMode::SameTag]), hr.below(4)), cap: *hr.pick(&[usize::MAX, 0, 7, 28]), check_every: 1, cursor_every: 1, focus };
+        let cfg = Cfg { elem, bh: Bh::new(*hr.pick(&[HMode::Good, HMode::Identity, HMode::SameTag]), hr.below(4)), cap: *hr.pick(&[usize::MAX, 0, 7, 28]), check_every: 1, cursor_every: 1, focus, ledger_only: false };
         let tag = format!("clones-{}-s{}-i{}-h{}", flavour(), sh.seed, sh.index, h);
         match elem {
             ElemKind::U64 => clones_case::<u64, u64>(&cfg, &mut hr, rep, &tag),
@@ -867,7 +867,7 @@ pub fn dropbomb(a: &Args, rep: &mut Report) {
         let mut hr = rng.fork();
         let size = if cfg!(miri) { *hr.pick(&[4usize, 15]) } else { *hr.pick(&[2usize, 5, 14, 15, 20, 29, 40, 61, 100]) };
         let state = hr.below(7);
-        let cfg = Cfg { elem: ElemKind::TrHeap, bh: Bh::new(*hr.pick(&[HMode::Good, HMode::Identity]), hr.below(3)), cap: usize::MAX, check_every: 1, cursor_every: 1, focus };
+        let cfg = Cfg { elem: ElemKind::TrHeap, bh: Bh::new(*hr.pick(&[HMode::Good, HMode::Identity]), hr.below(3)), cap: usize::MAX, check_every: 1, cursor_every: 1, focus, ledger_only: false };
         let mut s: Sess<T, T> = Sess::new(&cfg);
         let mut next = 1000;
         if !chain_state_pub(&mut s, state, size, &mut next) || !s.ok() {
@@ -1011,7 +1011,7 @@ pub fn withcap(a: &Args, rep: &mut Report) {
             continue;
         }
         let elem = if n % 3 == 0 { ElemKind::TrInline } else { ElemKind::U64 };
-        let cfg = Cfg { elem, bh: Bh::new(HMode::Good, n % 4), cap: usize::MAX, check_every: 512, cursor_every: 64, focus };
+        let cfg = Cfg { elem, bh: Bh::new(HMode::Good, n % 4), cap: usize::MAX, check_every: 512, cursor_every: 64, focus, ledger_only: false };
         let out = match elem {
             ElemKind::U64 => {
                 let mut s: Sess<u64, u64> = Sess::new(&cfg);
